@@ -504,7 +504,7 @@ def run(ctx):
     ctx.rule = ("a point is one (class, m, x, input dtype) evaluated by the implementation and checked by the direct oracle; "
                 "non-trivial = not the all-0.5 point; distinct = distinct (class, m, x, dtype). Model goals (one per objective value, "
                 "deduplicated when the numpy run returns the same bits) cover m in {2,3,4,6} with random points whose position "
-                "variables avoid 0.5, corners, Pareto-set points, near-0.5 distance variables, the all-0.5 point, DTLZ1 with k in {1,2,5,10}, "
+                "variables avoid 0.5, corners, Pareto-set points, near-0.5 distance variables, the all-0.5 point, DTLZ1 with k in {1,5,10} (thorough tier also k = 2), "
                 "ZDT1 with 2, 5 and 30 variables and the bi-objective box incl. its corners; distance variables approaching 0.5 at the scales "
                 "1e-3 .. 1e-12 from both sides (all / one / some / mixed) for every DTLZ class, checked by a tight clause (g-dependent part "
                 "of the identity against the exactly recomputed g), ZDT1 with g -> 1, the box edges from inside; every point goes to a "
